@@ -314,6 +314,9 @@ def run(ck, model_ok):
         flush(ck, m, pending)
     ck.count('layouts', len(lay))
     ck.exhaustive = False
+    # random access vs sequential access on ONE stream object whose environment changes between operations (oracle: a fresh object)
+    import c19
+    c19.run_changing(ck)
     ck.notes += ['float division floor(a/b) equals integer floor division for |a|,|b| < 2^53 (sizes near 2^53 are exercised, not proved)',
                  'File objects compare by (path, size); torrent file lists are duplicate-free (Files de-duplicates)']
 
@@ -339,6 +342,9 @@ def flush(ck, m, pending):
 
 def replay(rp):
     c = rp['case']
+    if c.get('changing'):
+        import c19
+        return c19.replay_changing(c)
     sizes, L, q = tuple(c['sizes']), c['L'], tuple(tuple(x) if isinstance(x, list) else x for x in c['query'])
     with Scratch() as root:
         contents = sl.gen_content(sizes)
